@@ -35,7 +35,7 @@ ASSUMPTIONS = [
 ]
 TIERS = {
     "quick": {"shards": 16, "cases": 800, "calls": 45, "timeout": 300},
-    "thorough": {"shards": 16, "cases": 30000, "calls": 60, "timeout": 3000},
+    "thorough": {"shards": 16, "cases": 60000, "calls": 60, "timeout": 3000},
 }
 FLOORS = {
     "quick": {"counts": {"words_checked": 4000, "motion_targets_checked": 15000,
